@@ -136,7 +136,7 @@ Theorem apply_delta_frontier : forall now c d, nd_bounded d ->
     (st = Apply -> c_gc c' = c_gc c /\ c_max c < c_max c' /\ c_max c' = d_max d /\ c_hb c' = c_hb c /\
                    forall k o, kget k (c_kvs c) = Some o ->
                      exists o', kget k (c_kvs c') = Some o' /\ v_ver o <= v_ver o') /\
-    (st = ApplyAfterReset -> c_gc c < c_gc c' /\ c_gc c' = d_gc d /\ c_max c' = d_max d).
+    (st = ApplyAfterReset -> c_gc c < c_gc c' /\ c_gc c' = d_gc d /\ c_max c' = d_max d /\ c_hb c' = c_hb c).
 Proof.
   intros now c d Hb. unfold apply_delta.
   destruct (check_delta_status c d) eqn:Hst.
@@ -167,9 +167,9 @@ Proof.
       - destruct (c_max c <? d_max d); discriminate.
       - apply orb_false_iff in Hc as [H1 _]. apply N.leb_gt in H1. exact H1. }
     unfold reset_node. cbn [c_max].
-    pose proof (fold_apply_kv_inv now 0 (d_kvs d) (mkCopy 0 (d_gc d) 0 [], []) (d_max d) Hb) as Hinv.
+    pose proof (fold_apply_kv_inv now 0 (d_kvs d) (mkCopy (c_hb c) (d_gc d) 0 [], []) (d_max d) Hb) as Hinv.
     cbn [fst c_max] in Hinv. specialize (Hinv ltac:(lia)). cbn zeta in Hinv.
-    destruct (fold_left (apply_kv now 0) (d_kvs d) (mkCopy 0 (d_gc d) 0 [], [])) as [c1 evs] eqn:Hf.
+    destruct (fold_left (apply_kv now 0) (d_kvs d) (mkCopy (c_hb c) (d_gc d) 0 [], [])) as [c1 evs] eqn:Hf.
     cbn [fst c_gc c_hb c_max] in Hinv. destruct Hinv as (Hgc & Hhb & Hmax & Hge).
     destruct (d_max d <? c_max c1) eqn:Hp; [apply N.ltb_lt in Hp; lia|].
     eexists _, ApplyAfterReset, evs. split; [reflexivity|]. split; [reflexivity|].
